@@ -131,7 +131,9 @@ fn scenario(op: &Op, fl: Fl, blob_len: usize) -> (Program, usize) {
     let k0 = format!("a{}", "é".repeat(200));
     let keys = vec![k0.clone(), "présent".to_string(), super::c09::bucket_dir_neighbour(&k0, "bystander"), "afterwards".to_string()];
     // (blobs 3 and 4 belong to the continuation alone: it must not re-create what the faulty call may have destroyed)
-    let blobs = vec![Blob::new(blob_len, 41), Blob::new(300, 42), Blob::new(17, 43), Blob::new(23, 44), Blob::new(29, 45)];
+    // blob 2 (the bystander's value): its content file is in the same content sub-directory as blob 0's
+    let b0 = Blob::new(blob_len, 41);
+    let blobs = vec![b0.clone(), Blob::new(300, 42), super::c09::content_dir_neighbour(Algo::Sha256, &b0, 17), Blob::new(23, 44), Blob::new(29, 45)];
     let steps = vec![
         Step { op: Op::Write(WriteSpec::simple(Some(1), 1)), fl: Fl::Sync },
         Step { op: Op::Write(WriteSpec::simple(Some(2), 2)), fl: Fl::Async },
